@@ -4,6 +4,7 @@
 -/
 import BufrModel.Drv.JsonUtil
 import BufrModel.Drv.BitsOp
+import BufrModel.Drv.PathOp
 open Lean Bufr.Drv
 
 def dispatch (j : Json) : J Json := do
@@ -11,6 +12,8 @@ def dispatch (j : Json) : J Json := do
   match op with
   | "ping" => pure (jobj [("pong", Json.bool true)])
   | "bits" => opBits j
+  | "path" => opPath j
+  | "path-enum" => opPathEnum j
   | _ => throw s!"unknown op {op}"
 
 partial def loop (hin hout : IO.FS.Stream) : IO Unit := do
